@@ -21,6 +21,23 @@ CHECKS = {
                      'evaluation order irrelevant. Bounded: shapes and depth as in evidence.', ref='5/C01'),
 }
 
+CHECKS['C07'] = dict(cat='model_checking', struct=True, engine='symnp (explorer) on the real Hub',
+    technique='bounded model checking: solver-enumerated operation traces with symbolic priorities/filters on the real Hub vs reference model',
+    text='All operation sequences up to the depth bound over broadcast/delay/ignore/subscribe/unsubscribe with re-entrant handler '
+         'behaviours are generated under solver control (opcodes, subscription flags, filter verdicts and pairwise-distinct '
+         'priorities are solver variables; the real sorted()/filter code forks on them), executed on the real Hub and compared '
+         'step by step with a reference model holding an explicit nesting depth and queue. States = model states reached, '
+         'transitions = executed operations, every trace is a real execution.', ref='5/C07',
+    note='bounded depth (evidence.bounds); message classes A, B<A, C; 3 listeners; tie order among equal priorities is not '
+         'constrained (priorities assumed distinct); delivery-time subscription semantics as documented in Hub')
+CHECKS['C20'] = dict(cat='other', xhair=True, engine='symnp + crosshair',
+    technique='symbolic execution (own executor with symbolic integers; CrossHair for find_chunk_shape) + SMT',
+    text='combine_slices is executed with symbolic start/stop/length/position (steps enumerated) and z3 proves that a view '
+         'position is selected by the combined slice iff its element is selected by the second slice; find_chunk_shape is '
+         'checked by CrossHair (Confirmed over all paths required); iterate_chunks runs with a symbolic chunk limit over '
+         'solver-enumerated shapes; unbroadcast/broadcast_arrays_minimal/view_shape/categorical arrays over all stride '
+         'patterns / views / letter assignments inside the bounds.', ref='5/C20')
+
 NOT_YET = {}
 
 NOT_APPLICABLE = {
